@@ -21,6 +21,10 @@ import gen  # noqa: E402
 FACTS = ["scan_ambient", "file_codegen_src_", "file_cli_src_main_rs", "file_macro_src_lib_rs", "file_codegen_build_rs"]
 
 
+DERIVE_LISTS = [["Debug", "Clone"], ["Clone", "Debug"], ["Debug", "Clone", "PartialEq", "Eq"], ["PartialEq", "Debug"],
+                ["Debug", "Debug"], ["Eq", "PartialEq", "Clone", "Debug", "Hash"], ["Debug"], ["std::fmt::Debug", "Clone"]]
+
+
 def strip_header(text):
     lines = text.split("\n")
     i = 0
@@ -45,6 +49,7 @@ def check(out, ctx):
     samples = []
     evaluations = 0
     distinct = set()
+    cli_opts = []
     try:
         gs = []
         for i in range(n):
@@ -81,6 +86,22 @@ def check(out, ctx):
             if c.returncode != 0 or strip_header(c.stdout) != code:
                 out.violation("c16:cli:%s" % i, "peginator-cli output differs from the library output after the header",
                               {"grammar": text, "cli_rc": c.returncode, "cli_head": c.stdout[:300]})
+            # the CLI's options reach the generator unchanged: derive lists in the order given
+            if "@memoize" not in text and "@leftrec" not in text and len(cli_opts) < (6 if ctx.tier == "quick" else 60):
+                for ds in DERIVE_LISTS[len(cli_opts) % 2::2]:
+                    lib = subprocess.run([front, "gen", gp, "derives=" + ",".join(ds)], stdout=subprocess.PIPE, text=True).stdout
+                    dargs = []
+                    for d in ds:
+                        dargs += ["-d", d]
+                    c2 = subprocess.run([cli] + dargs + [gp], stdout=subprocess.PIPE, text=True)
+                    evaluations += 2
+                    cli_opts.append(ds)
+                    if not lib.startswith("CODE\n") or c2.returncode != 0 or strip_header(c2.stdout) != lib[5:].strip():
+                        out.violation("c16:cli-derives:%s:%s" % (i, ",".join(ds)),
+                                      "peginator-cli with -d %s differs from the library call with the same derive list" % " -d ".join(ds),
+                                      {"grammar": text, "derives": ds, "cli_rc": c2.returncode,
+                                       "cli_derive_lines": sorted(set(l.strip() for l in c2.stdout.split("\n") if "derive" in l))[:4],
+                                       "library_derive_lines": sorted(set(l.strip() for l in lib.split("\n") if "derive" in l))[:4]})
             dest = os.path.join(tmp, "g%s.rs" % i)
             prefix = "use x;" if (hash(text) & 1) else ""
             r = vp.pipe_lines(ctx.direct, ["compile\tfile\t%s\t%s\t0\t%s" % (gp, dest, prefix.encode().hex())])[0]
@@ -100,16 +121,28 @@ def check(out, ctx):
         # macro route: behaviour and types through peginate!
         mg = []
         k = 0
-        for (i, gg, text) in gs:
-            if gg is None or "#####" in text:
-                continue
-            a = genrun.G("m%da" % k, text, meta={})
-            b = genrun.G("m%db" % k, text, meta={"via_macro": True})
-            a.gg = b.gg = gg
-            mg += [a, b]
-            k += 1
-            if k >= (3 if ctx.tier == "quick" else 30):
-                break
+
+        class Fixed:
+            def __init__(self, xs):
+                self.xs = xs
+
+            def inputs(self, r, n):
+                return self.xs
+        # grammar texts with characters a Rust string literal has to escape: the macro is given them
+        # once as a raw literal and once as an ordinary literal with escapes
+        esc = [("@export @no_skip_ws P = parts:W {'\\\\' parts:W} $;\n@string @no_skip_ws W = {'a'..'z'}+;\n",
+                ["usr\\local\\bin", "usr\\\\local", "usr", "usr\\", "\\usr", ""]),
+               ("@export @no_skip_ws Q = \"a\\\"b\" '\\n' \"c\" '\\t' $;\n", ["a\"b\nc\t", "a\"b\\nc\t", "ab\nc\t", "a\"b\nc"]),
+               ("@export R = 'x'\t\"y\";\r\n# \"quoted\" comment \\ with a backslash\r\n", ["xy", "x y", "x\ty", "x"])]
+        cand = [(gg, text) for (i, gg, text) in gs if gg is not None and "#####" not in text][: (3 if ctx.tier == "quick" else 30)]
+        cand += [(Fixed(xs), text) for text, xs in esc]
+        for gg, text in cand:
+            for lit in (("raw", "cooked") if "#####" not in text else ("cooked",)):
+                a = genrun.G("gm%da" % k, text, meta={})
+                b = genrun.G("gm%db" % k, text, meta={"via_macro": True, "macro_lit": lit})
+                a.gg = b.gg = gg
+                mg += [a, b]
+                k += 1
         genrun.prepare(front, mg, os.path.join(tmp, "macro-src"))
         exes = genrun.build([g for g in mg], "c16-macro", nshards=4)
         compared = 0
@@ -118,7 +151,8 @@ def check(out, ctx):
             if a.gid not in exes or b.gid not in exes:
                 if (a.gid in exes) != (b.gid in exes):
                     out.violation("c16:macro-build:%s" % a.gid, "only one of library route / macro route compiles",
-                                  {"grammar": a.text, "rustc": (a.rustc_error or b.rustc_error or "")[:500]})
+                                  {"grammar": a.text, "macro_literal": b.meta.get("macro_lit"), "macro_call": genrun.macro_call(b)[:400],
+                                   "rustc": (a.rustc_error or b.rustc_error or "")[:500]})
                 continue
             for r in a.exports:
                 inputs = a.gg.inputs(r, 20)
@@ -129,11 +163,12 @@ def check(out, ctx):
                     evaluations += 1
                     if u != v:
                         out.violation("c16:macro:%s" % a.gid, "parser from peginate! behaves differently from the parser generated by the library call on %r" % x,
-                                      {"grammar": a.text, "input": x, "library": u[:300], "macro": v[:300]})
+                                      {"grammar": a.text, "input": x, "library": u[:300], "macro": v[:300],
+                                       "macro_literal": b.meta.get("macro_lit"), "macro_call": genrun.macro_call(b)[:400]})
         out.coverage.update({
             "evaluations": evaluations, "distinct_nontrivial": len(distinct),
             "rule": "generated grammars and repository grammars; each compiled by the library call in 5 fresh processes (different environment), by the peginator-cli binary, by Compile::run, and (a few) through peginate!; distinct = distinct generated code texts",
-            "samples": samples, "macro_route_results_compared": compared,
+            "samples": samples, "macro_route_results_compared": compared, "cli_derive_lists_compared": len(cli_opts),
         })
     finally:
         shutil.rmtree(tmp, ignore_errors=True)
